@@ -162,6 +162,10 @@ Definition take_tokens (cfg : config) (c : chain) (cs : cstate) (u : holder) (to
 Definition take_fee (cs : cstate) (u : holder) (ftok : token) (fee : N) : option cstate :=
   if fee <=? bal cs ftok u then Some (move cs ftok u PacketC fee) else None.
 
+(* observed: endpoint, packet and execute contracts reject plain value; the agent contract accepts it *)
+Definition is_contract (h : holder) : bool :=
+  match h with Endpoint | PacketC | Execute => true | _ => false end.
+
 Definition is_none {A} (o : option A) : bool := match o with None => true | Some _ => false end.
 Definition cd_is_none (cd : calldata) : bool := match cd with CdNone => true | _ => false end.
 
@@ -202,6 +206,8 @@ Definition give_tokens (cfg : config) (cs : cstate) (p : packet) : option (cstat
                    Some (set_bind (mint cs loc r real) (upd_tc (bind_amt cs) loc (p_src p) (bind_amt cs loc (p_src p) + real)), real)
                end
            | Some t =>
+               (* the native coin cannot be released to a system contract (they do not accept plain value) *)
+               if Nat.eqb t 0 && is_contract r then None else
                if (p_amount p <=? out_tokens cs t (p_src p)) && (p_amount p <=? bal cs t Endpoint) then
                  Some (set_out (move cs t Endpoint r (p_amount p))
                          (upd_tc (out_tokens cs) t (p_src p) (out_tokens cs t (p_src p) - p_amount p)), p_amount p)
@@ -242,7 +248,9 @@ Definition recv_chain_old (cfg : config) (cs : cstate) (p : packet) : N * cstate
 (** * msg_server.Acknowledgement on the source chain: setAckStatus, sendPacketFeeToRelayer,
     OnAcknowledgePacket (refund for every non-zero code).  [None] = the message fails (state kept). *)
 Definition give_back (cfg : config) (cs : cstate) (p : packet) : option (cstate * N) :=
-  if (p_code p =? 0) || (p_amount p =? 0) then Some (cs, 0)
+  if p_code p =? 0 then Some (cs, 0)
+  else if p_amount p =? 0 then None   (* observed: OnAcknowledgePacket reverts for an error acknowledgement of a packet
+                                         without transfer data; the message fails, the packet can never be acknowledged *)
   else match p_ori p with
        | None =>
            if (p_amount p <=? out_tokens cs (p_token p) (p_dst p)) && (p_amount p <=? bal cs (p_token p) Endpoint) then
@@ -269,10 +277,12 @@ Definition ack_chain (cfg : config) (cs : cstate) (p : packet) : option (cstate 
       if f <=? bal cs1 ft PacketC then give_back cfg (move cs1 ft PacketC Relayer f) p else None
   end.
 
-(** Packet.addPacketFee: anybody may raise the fee of a packet that was sent and is not yet acknowledged. *)
+(** Packet.addPacketFee: anybody may raise the fee of a packet that is not yet acknowledged.  Observed: the
+    contract does NOT check that the packet was sent; a fee pre-paid for a future sequence is overwritten
+    by that packet's own fee when it is sent (the pre-paid amount stays in the packet contract). *)
 Definition addfee_chain (cs : cstate) (u : nat) (dst : chain) (sq : N) (amt : N) : option cstate :=
   let '(ft, f) := fees cs dst sq in
-  if (1 <=? sq) && (sq <? next_seq cs dst) && (ack_status cs dst sq =? 0) && (amt <=? bal cs ft (User u)) then
+  if (ack_status cs dst sq =? 0) && (amt <=? bal cs ft (User u)) then
     Some (set_fees (move cs ft (User u) PacketC amt) (upd_cs (fees cs) dst sq (ft, f + amt)))
   else None.
 
